@@ -1,7 +1,7 @@
 """Which functions (under contract) carry which property.  Unit -> list of function names whose
 every obligation must be discharged for the property to hold."""
 
-SOLVER_CORE = ["solve_expression", "find", "lemma_match_unfold", "lemma_ids_wf",
+SOLVER_CORE = ["solve_expression", "find", "match_all", "match_of", "lemma_match_unfold", "lemma_ids_wf",
                "lemma_and3_skip", "lemma_and3_first", "lemma_and3_all_true", "lemma_and3_true_iff",
                "lemma_and2", "lemma_or2", "lemma_count_true_step", "lemma_count_true_mono", "lemma_count_true_bound"]
 
@@ -73,6 +73,11 @@ PROPS = {
         "units": {"solver": ["validate", "matches", "solve"]},
         "explanation": "validate() is proved to return Ok exactly when every true_positives example is a mapping on which the rule's verdict (the same spec function matches() ensures) is true and every true_negatives example one on which it is false; its unwrap-free body cannot panic; optimised or not is irrelevant (any well-formed detection)",
         "assumptions": ["serde_yaml::Value::as_mapping and Mapping-as-Document are trusted glue (src/yaml.rs not under contract)", "rule_wf(self): loading establishes well-formedness (C03 link)"],
+    },
+    "C08": {
+        "units": {"solver": ["solve_expression", "match_all", "match_of", "slow_aho", "lemma_of3_single", "lemma_bit_or", "lemma_bit_val", "lemma_bit_zero", "lemma_seen_step", "lemma_seen_all", "lemma_count_true_step", "lemma_count_true_mono", "lemma_match_unfold"]},
+        "explanation": "all(X)/of(X, n) over identifier groups count the group's entries (solve_expression Match arms: and3 / of3 over sems); over a merged search they count distinct members: slow_aho's 64-bit bitmap is proved to equal ac_count (each member once, however often it occurs), match_all/match_of are proved equal to sem_all_leaf/sem_of_leaf for string, array and cast scalar values; a single predicate counts as a list of one member",
+        "assumptions": ["slow_aho's HashSet branch (>= 64 needles) is a hole", "the parser-side construction of the wrappers (parse_mapping) is not under contract", "Matrix forms of all()/of() are holes"],
     },
     "C06": {
         "units": {"solver": SOLVER_CORE + ["solve"]},
